@@ -55,6 +55,8 @@ Check(e) ==
                ~(e.rows[r].jac0[v].k = "q" /\ e.rows[r].valp[v].k = "q" /\ e.rows[r].val0.k = "q"
                  /\ ObsEq(e.rows[r].jac0[v], QSub(ObsQ(e.rows[r].valp[v]), ObsQ(e.rows[r].val0))))
           THEN "jacobian_not_derivative_of_value"
+     \* Jacobians requested at several points in a row (no value request in between) belong to their own points
+     ELSE IF \E i \in 1..Len(e.jacseq) : ~e.jacseq[i] THEN "jacobian_of_another_point"
      ELSE IF e.maxit > 0 /\ limit # e.maxit THEN "max_iterations_not_forwarded"
      ELSE "ok"
 
